@@ -47,7 +47,23 @@ def check(tier):
             errs = [float(x) for x in dev.split(',')]
         except ValueError:
             errs = [float('inf')]
-        if dev.startswith('PANIC') or max(errs) > 1e-6 or any(e != e for e in errs):
+        # the property's own bound for a finding that could not be read structurally (an own implementation): relative error 2^-30, on
+        # operands of ordinary size and on tiny ones (2^-70: an absolute error floor shows there)
+        relbad = None
+        if 'does not hand its work' in what or 'instead of exactly one generic' in what:
+            for k in (0, 70):
+                dr, rr = replay.both(['complex_ops', n, 'rel', k]); rep.replayed += 1
+                for prof, out in (('dev', dr), ('release', rr)):
+                    try:
+                        re_ = [float(x) for x in out.split(',')]
+                    except ValueError:
+                        re_ = [float('inf')]
+                    if out.startswith('PANIC') or max(re_) > 2.0 ** -30 or any(e != e for e in re_):
+                        relbad = relbad or (k, prof, out)
+        if relbad:
+            rep.violation('complex-glue', 'Polynomial<Complex64> glue at n=%d: %s; natively, inputs scaled by 2^-%d, relative errors (round trip, product, merge(split), split(fft)) = %s [%s] exceed 2^-30'
+                          % (n, what, relbad[0], relbad[2], relbad[1]), {'replay_request': ['complex_ops', n, 'rel', relbad[0]], 'got': relbad[2], 'what': what})
+        elif dev.startswith('PANIC') or max(errs) > 1e-6 or any(e != e for e in errs):
             rep.violation('complex-glue', 'Polynomial<Complex64> glue at n=%d: %s; natively (round trip, product, merge(split), split(fft)) errors = %s' % (n, what, dev),
                           {'replay_request': ['complex_ops', n], 'dev': dev, 'release': rel, 'what': what})
         else:
